@@ -138,6 +138,15 @@ def run_case(ctx, pydsdl, lay, workdir):
         ("ws-rel/abs-root", ws, [rel_to_ws], [rootdir], len(lay["prefix"]) == 0),
         ("ws-rel/no-roots", ws, [rel_to_ws], [], len(lay["prefix"]) == 0),
     ]
+    if nsdirs and not lay["malformed"] and nsdirs[-1] not in lay["prefix"] and nsdirs[-1] != lay["root"] and nsdirs[-1] not in ws.parts:
+        # a namespace directory below the root that is itself named like another root in the list: the list order of the
+        # bare names must not decide which directory becomes the root
+        inner = nsdirs[-1]
+        designs += [
+            ("abs-target/names[root,inner-dir]", ws, [fpath], [lay["root"], inner], False),
+            ("abs-target/names[inner-dir,root]", ws, [fpath], [inner, lay["root"]], False),
+            ("ws-rel/names[inner-dir,root]", ws, [rel_to_ws], [inner, lay["root"]], False),
+        ]
     results = {}
     try:
         for did, cwd, files, roots, must in designs:
